@@ -315,6 +315,40 @@ def handle (j : Json) : Except String Json := do
       | .names ns => Json.mkObj [("names", jArr (ns.map Json.str))]
       | .macro v => Json.mkObj [("macro", match v with | some n => jNat n | none => Json.null)]
     pure (Json.mkObj [("obs", jArr (obs.map jo)), ("cooks", jNat w.tpl.cooks)])
+  | "sched" =>
+    -- threads rendering one shared file template; moves: [thread, label] = run that thread up to its next label
+    let auto ← getBool j "auto"
+    let names ← match j.getObjVal? "names" with
+      | .ok (.arr a) => a.toList.mapM (fun x => x.getStr?)
+      | _ => throw "names"
+    let n ← getNat j "threads"
+    let c : Sys.Sched.Cfg := { autoReload := auto, mtime := 7, version := 1, names := names }
+    let moves ← match j.getObjVal? "moves" with
+      | .ok (.arr a) => a.toList.mapM (fun m => match m with
+          | .arr #[t, .str l] => do pure ((← t.getNat?), l)
+          | _ => throw "move")
+      | _ => throw "moves"
+    let atLabel (l : String) (pc : Sys.Sched.PC) : Bool := match l, pc with
+      | "cook_check:read", .install 0 => true
+      | "cook:installed", .clean => true
+      | "done", .done _ => true
+      | l, .install k => l == s!"cook:setattr:{k}"
+      | _, _ => false
+    let advance (w : Sys.Sched.World) (t : Nat) (l : String) : Sys.Sched.World := Id.run do
+      let mut w := w
+      -- labels that coincide in the model need no step
+      if atLabel l (w.threads.getD t .start) && l != "done" then return w
+      for _ in [0:60] do
+        w := Sys.Sched.step c w t
+        if atLabel l (w.threads.getD t .start) then break
+      return w
+    let w := moves.foldl (fun w (t, l) => advance w t l) { shared := {}, threads := List.replicate n .start }
+    let res := w.threads.map (fun pc => match pc with
+      | .done (some v) => jNat v
+      | .done none => Json.str "AttributeError"
+      | _ => Json.str "unfinished")
+    pure (Json.mkObj [("results", jArr res), ("cooked", Json.bool w.shared.cooked),
+      ("installed", jArr ((w.shared.fns.map (·.1)).map Json.str))])
   | "cache" =>
     -- two writers of one entry under a schedule of events
     let entry ← getS j "entry"
